@@ -43,11 +43,13 @@ import (
 )
 
 const (
-	c02Long     = 10 * time.Minute       // never reached
-	c02Short    = 100 * time.Millisecond // always reached: the handler waits for it
-	c02Tiny     = 20 * time.Millisecond  // boundary mode: either side is accepted
-	c02ApiMs    = 2000                   // Config.Timeout of the started server (ms)
-	c02Barrier  = 30 * time.Second       // harness barrier: exceeding it is an infrastructure error
+	c02Long    = 10 * time.Minute       // never reached
+	c02Short   = 100 * time.Millisecond // always reached: the handler waits for it
+	c02Tiny    = 20 * time.Millisecond  // boundary mode: either side is accepted
+	c02ApiMs   = 2000                   // Config.Timeout of the started server (ms)
+	c02Barrier = 30 * time.Second       // harness barrier: exceeding it is an infrastructure error
+	c02Hang    = 20 * time.Second       // a request without any response for this long is a hung client (a violation:
+	//                                      the specification's chain always answers - EventuallyAnswered / Returns)
 	c02BigChunk = 70000
 )
 
@@ -197,8 +199,13 @@ func (d *c02Drv) handle(w http.ResponseWriter, r *http.Request) {
 			time.Sleep(time.Duration(sc.rng.Int63n(int64(sc.stepSleep))))
 		}
 		if i == len(sc.steps) {
-			if sc.term == "panic" {
+			switch {
+			case sc.term == "panic":
 				panic("verif C02: scripted handler panic")
+			case strings.HasPrefix(sc.term, "bad"):
+				// WriteHeader with a status code outside 100..599: panics inside WriteHeader
+				code, _ := strconv.Atoi(strings.TrimPrefix(sc.term, "bad"))
+				w.WriteHeader(code)
 			}
 			return
 		}
@@ -236,7 +243,9 @@ func c02FreePort() (int, error) {
 	return p, nil
 }
 
-func c02Path(class string, mb int64) string { return "/" + class + "/" + strconv.FormatInt(mb, 10) + "/s" }
+func c02Path(class string, mb int64) string {
+	return "/" + class + "/" + strconv.FormatInt(mb, 10) + "/s"
+}
 
 // addRoutes registers the scripted handler once per (time-out class, MaxBytes) through the public
 // route options; class "cfg" and the first MaxBytes value use the Config-level settings.
@@ -344,6 +353,20 @@ func (d *c02Drv) newScenario(env *c02Env) *c02Scenario {
 	return sc
 }
 
+// c02Dump returns the stacks of the goroutines stuck inside the chain (for a hung request).
+func c02Dump() string {
+	var keep []string
+	for _, g := range strings.Split(kit.Stacks(), "\n\n") {
+		if strings.Contains(g, "api/handler.") && !strings.Contains(g, "c02Dump") {
+			keep = append(keep, g)
+			if len(keep) == 4 {
+				break
+			}
+		}
+	}
+	return "\n--- goroutines inside the chain ---\n" + strings.Join(keep, "\n\n")
+}
+
 // settle waits until the handler of an answered request has ended. If the specification says the
 // handler runs, a handler goroutine that was not scheduled before the answer is waited for.
 func (sc *c02Scenario) settle(wantRuns bool) string {
@@ -386,13 +409,18 @@ func (d *c02Drv) do(transport string, env *c02Env, path string, sc *c02Scenario,
 				}
 			}()
 		}
-		escaped := func() (p any) {
-			defer func() { p = recover() }()
+		served := make(chan any, 1)
+		go func() {
+			defer func() { served <- recover() }()
 			env.bound.router.ServeHTTP(rec, req)
-			return nil
 		}()
-		if escaped != nil {
-			return c02Obs{err: fmt.Sprintf("panic escaped the chain: %v", escaped)}
+		select {
+		case escaped := <-served:
+			if escaped != nil {
+				return c02Obs{err: fmt.Sprintf("panic escaped the chain: %v", escaped)}
+			}
+		case <-time.After(c02Hang):
+			return c02Obs{err: "HUNG no response within " + c02Hang.String() + c02Dump()}
 		}
 		// the handler goroutine may still be running its post steps (or, on a stalled machine, may not
 		// even have been scheduled yet): let it end before looking
@@ -414,6 +442,9 @@ func (d *c02Drv) do(transport string, env *c02Env, path string, sc *c02Scenario,
 		req.Header.Set("X-Verif-Id", sc.id)
 		res, err := d.client.Do(req)
 		if err != nil {
+			if time.Since(t0) >= c02Hang {
+				return c02Obs{err: "HUNG no response within " + c02Hang.String() + " (" + err.Error() + ")" + c02Dump()}
+			}
 			return c02Obs{err: err.Error()}
 		}
 		b, err := io.ReadAll(res.Body)
@@ -462,6 +493,9 @@ func c02Eq(a, b []string) bool {
 // c02Match decides whether the observation is one of the allowed responses; why names the first
 // thing that is off (used in the stable key).
 func c02Match(exp kit.M, o c02Obs) (ok bool, why string) {
+	if strings.HasPrefix(o.err, "HUNG") {
+		return false, "hung"
+	}
 	if o.err != "" {
 		return false, "no-response"
 	}
@@ -525,7 +559,7 @@ func c02Class(m kit.M) string {
 	switch {
 	case kit.Str(m["mode"]) == "boundary":
 		return "boundary"
-	case kit.Num(m["npre"]) == n+1 && kit.Str(m["term"]) == "panic":
+	case kit.Num(m["npre"]) == n+1 && kit.Str(m["term"]) != "finish":
 		return "panic"
 	case kit.Num(m["npre"]) == n+1:
 		return "intime"
@@ -622,6 +656,9 @@ func (d *c02Drv) runScript(c kit.Case, m kit.M) kit.Verdict {
 					}
 				}
 				break
+			}
+			if why == "hung" {
+				break // 20 s of silence is not a stalled machine; do not wait again
 			}
 			if tr == "api" {
 				// only outcomes that cannot be blamed on a stalled machine count: the handler must have
@@ -782,7 +819,7 @@ func TestVerifC02(t *testing.T) {
 	logx.Disable()
 
 	d := &c02Drv{rep: rep, conns: map[string]*c02Env{}, useAPI: kit.Env("VERIF_C02_API", "1") == "1"}
-	d.client = &http.Client{Timeout: 2 * time.Minute, Transport: &http.Transport{DisableKeepAlives: true, DisableCompression: true}}
+	d.client = &http.Client{Timeout: c02Hang, Transport: &http.Transport{DisableKeepAlives: true, DisableCompression: true}}
 
 	var mine []kit.Case
 	mbSet := map[int64]bool{}
